@@ -6,7 +6,7 @@ META = {
     "technique": "Lean 4 theorems over an executable model of transport.go sendRequest / the Broker() methods / ApiKey.SelectVersion / makeLayout / filterMetadataResponse / update, stated over tables regenerated from /repo on every run (method sets, Broker() body shapes, struct-tag version ranges, type-switch case order); routing-class table compared with the Kafka designation by `decide`; model↔code correspondence at function level (export hooks) and at journal level (a real kafka.Transport against an in-process multi-broker fake cluster)",
     "level_claimed": {
         "category": "proof",
-        "text": "Kernel-checked for all inputs: SelectVersion returns the highest common version inside both ranges whenever the ranges overlap (and through the per-connection version map); every registered request type is routed to the class of broker Kafka designates (regenerated table, decide); produce/fetch requests accepted by Broker() go to the one broker leading every requested partition, mismatching leaders are refused; a split ListOffsets part goes to its partition leader; topic-filtered metadata served from the cache equals the restriction of the last (normalised) broker answer for every sorted cache; after update(m) layout and connection groups (with their dial addresses) are exactly those of m, along every history of updates; the refresh loop (LTS of discover with return guards regenerated from the source) survives every sequence of refresh faults unless the pool is closed, and the next answered refresh installs m (refresh_loop_survives_faults, refresh_after_faults). The model is tied to the code by regenerated tables and by running the real Transport against a fake cluster and diffing the journal (broker, api key, version) with the model's prediction.",
+        "text": "Kernel-checked for all inputs: SelectVersion (its body is translated from protocol.go on every run) returns the highest common version inside both ranges whenever the ranges overlap (and through the per-connection version map); every registered request type is routed to the class of broker Kafka designates (regenerated table, decide); produce/fetch requests accepted by Broker() go to the one broker leading every requested partition, mismatching leaders are refused; a split ListOffsets part goes to its partition leader; topic-filtered metadata served from the cache equals the restriction of the last (normalised) broker answer (the cache's sortedness is proved from update's normalisation); roundTrip's metadata arm (cache vs broker, auto topic creation) and the split of DescribeGroups/ListGroups/DescribeConfigs/ListOffsets requests are modelled with theorems; after update(m) layout and connection groups (with their dial addresses) are exactly those of m, along every history of updates; the refresh loop (LTS of discover with return guards regenerated from the source) survives every sequence of refresh faults unless the pool is closed, and the next answered refresh installs m (refresh_loop_survives_faults, refresh_after_faults). The model is tied to the code by regenerated tables and by running the real Transport against a fake cluster and diffing the journal (broker, api key, version) with the model's prediction.",
         "design_ref": "DESIGN.md §7 C12",
     },
     "level_note": "Partial: 'within one metadata TTL plus a round trip' is timing — observed with tolerance by the driver (follow op), not proved. Trusted: Lean kernel; propext/Classical.choice/Quot.sound; the go/ast extractor (method sets, Broker() body shape classification, tags, switch order); Spec/Routing.lean is a transcription of the Kafka protocol guide (28 audited APIs; ListGroups, ACL, config, quota and SCRAM APIs are unaudited and never alarm); Go's sort.Slice modelled as insertion sort (unique result for distinct keys); coordinator lookup assumed to succeed; the fake cluster and canonicalisation.",
@@ -27,6 +27,9 @@ def run(ctx):
     broken = []
     if not ok:
         broken.append({"kind": "obligation", "name": "translator go/extract routing", "detail": log[-1500:]})
+    ok2, log2 = ctx.extract("mappings", ["lean/KafkaVerif/Gen/Mappings.lean"])
+    if not ok2:
+        broken.append({"kind": "obligation", "name": "translator go/extract mappings", "detail": log2[-1500:]})
     res = ctx.prove(MODULE)
     if not res["ok"]:
         broken.append({"kind": "obligation", "theorems": res["failed"], "detail": res["reasons"][:10]})
